@@ -118,6 +118,17 @@ def qosResRows (o : Nat) (t : List Nat) (blob : Bytes) : Nat × List Row :=
   | 3 => (20, hd 20 3 ++ [.num (o + 8) 8 (g 3), .num (o + 16) 4 0])
   | _ => (8 + blob.length, hd (8 + blob.length) (g 3) ++ [.raw (o + 8) blob])
 
+/-- the calls made after the last direct write of the PPTT flags field (all calls if there is none) -/
+def afterLastFlagsWrite (opts : List Opt) : List Opt :=
+  (opts.reverse.takeWhile (fun o => ¬ (o.name = "set" ∧ o.arg 0 = 0))).reverse
+
+/-- PPTT processor flags: the last value written directly to the field (0 if none), together
+    with the bits of the flag builders invoked after that write -/
+def procFlags (opts : List Opt) : Nat :=
+  lastSet opts 0 0 |||
+    (let t := afterLastFlagsWrite opts
+     bit t "physical" 1 + bit t "valid" 2 + bit t "thread" 4 + bit t "leaf" 8 + bit t "identical" 16)
+
 /-- the reference encoding of one entry built by `ctor` + `opts`; `none`: no reference
     layout is claimed for this kind -/
 def rows (k : Kind) (c : EArgs) (opts : List Opt) : Option (Nat × List Row) :=
@@ -182,8 +193,8 @@ def rows (k : Kind) (c : EArgs) (opts : List Opt) : Option (Nat × List Row) :=
   | .proc =>
     let rs := pushed opts "cache"
     some (20 + 4 * rs.length, [.num 0 1 0, .num 1 1 (20 + 4 * rs.length), res 2 2,
-      .num 4 4 (b "physical" 1 + b "valid" 2 + b "thread" 4 + b "leaf" 8 + b "identical" 16),
-      .num 8 4 (n 0), .num 12 4 (n 1), .num 16 4 rs.length] ++ arrayRows 20 4 4 rs)
+      .num 4 4 (procFlags opts),
+      .num 8 4 (ls 1 (n 0)), .num 12 4 (ls 2 (n 1)), .num 16 4 rs.length] ++ arrayRows 20 4 4 rs)
   | .cache =>
     -- attributes: union of the codes of the values supplied (allocation 1:0, type 3:2, policy 4)
     let orAll (nm : String) (f : Nat → Nat) : Nat := (pushed opts nm).foldl (fun acc v => acc ||| f v) 0
